@@ -143,12 +143,13 @@ std::string prop_generate(Tape & t, int size) {
                         // raw samples, small signal first: the reader must grow its shared buffers between the two (seeded/C10d).
                         if (t.chance(1, 8) && !twr) {
                             int idb = 200 + (int) t.range(0, 40);
-                            const DType & dtb = *dtype_by_name(t.pick(std::vector<std::string>{"u8", "i16", "u4", "f32", "u1"}).c_str());
-                            int64_t spd = t.pick(std::vector<int64_t>{65544, 70000, 98304, 131072});
+                            const DType & dtb = *dtype_by_name(t.pick(std::vector<std::string>{"u8", "i16", "u4", "f32", "u1", "u32", "i32"}).c_str());
+                            int64_t spd = t.pick(std::vector<int64_t>{65544, 70000, 98304, 131072, 524288});
                             int64_t sdf = t.pick(std::vector<int64_t>{8, 64, 4096});
                             Call d; d.f = "signal"; d.a = {idb, 1, 0, (int64_t) dtb.code, 1000, spd, sdf, 16, 8, 0, 0}; d.s1 = gen_name(t, "b"); d.s2 = gen_name(t, "u"); push(d);
                             sigs.push_back(idb);
                             int64_t left = spd + t.range(1, 40000);
+                            if (spd > 200000) left = t.range(100, 5000);   // a block of up to 2 MiB that is never filled: the only DATA chunk is short
                             while (left > 0) { int64_t nn = std::min<int64_t>(left, t.range(30000, 100000)); Call w; w.f = "fsr"; w.a = {idb, -1, nn, (int64_t) t.raw()}; push(w); left -= nn; }
                             pending_big = idb;
                         }
